@@ -9,7 +9,7 @@ On break: harness `oracle` evaluates the property's clauses directly on the real
 import os
 
 THEOREMS = ["IstioModel.C04.Theorems", "IstioModel.C04.ProtocolTheorems", "IstioModel.C04.DeltaTraceTheorems",
-            "IstioModel.C04.ProcessTheorems"]
+            "IstioModel.C04.ProcessTheorems", "IstioModel.C04.RecvTheorems"]
 
 
 def oracle(ctx, stream, case_lines, rep):
@@ -51,6 +51,8 @@ def run(ctx):
         "gRPC framing and stream goroutines are outside the model; Send is modelled by its watch update only",
     ]
     ctx.trusted.append("pilot/pkg/xds/zz_verif_c04.go (verif-tagged accessors for shouldRespondDelta, sendDelta)")
+    ctx.trusted.append("pilot/pkg/xds/zz_verif_c03.go (processRequest, processDeltaRequest, pushConnection, pushConnectionDelta on a bare server), "
+                       "pkg/xds/zz_verif_c04b.go + pilot/pkg/xds/zz_verif_c04b.go (Receive / receiveDelta run to completion, recover() around them)")
     proved = ctx.lean_prove(THEOREMS)
     if not ctx.build_drv():
         return
@@ -67,8 +69,11 @@ def run(ctx):
     # forceEDSPush / pushConnectionDelta on a recording stream with recording generators
     ctx.diff_stream("proc", ctx.n(1200, 30000), oracle=oracle)
     ctx.diff_stream("dproc", ctx.n(1200, 30000), oracle=oracle)
+    # the receive side: malformed first requests through the real xds.Receive / receiveDelta on a real DiscoveryServer,
+    # every forwarded request then through the real processRequest / processDeltaRequest (crash freedom)
+    ctx.diff_stream("recv", ctx.n(600, 6000), oracle=oracle)
     # the oracle also runs on every generated case (second line, independent of the model)
-    for stream in ("sotw", "delta", "warm", "loop", "proc", "dproc"):
+    for stream in ("sotw", "delta", "warm", "loop", "proc", "dproc", "recv"):
         g = os.path.join(ctx.work, "%s.gen.ops" % stream)
         if os.path.exists(g):
             out = g + ".verdict"
